@@ -131,10 +131,16 @@ def safety_facets(run, core, pairs):
             if oc:
                 same = all(z3.eq(S.zz(a), S.zz(b)) for a, b in zip(np.asarray(dA, dtype=object).flat, np.asarray(oc[-1][2], dtype=object).flat))
                 passed_A = all(z3.eq(S.zz(a), S.zz(b)) for a, b in zip(np.asarray(oc[-1][1][0], dtype=object).flat, np.asarray(gr.args["A"], dtype=object).flat))
-                run.exact(f"{tag}/skew-through-caller", fn, same and passed_A, "orientation rate is the spin contract's result for this grain's own orientation")
+                if same and passed_A:
+                    run.exact(f"{tag}/skew-through-caller", fn, True, "orientation rate is the spin contract's result for this grain's own orientation")
+                else:
+                    run.undecided(f"{tag}/skew-through-caller", fn, "result is not syntactically the spin contract's result for the grain's own orientation: decided by the bounded stand-in")
             else:
                 zero = all((not isinstance(v, Sym)) and v == 0 for v in np.asarray(dA, dtype=object).flat)
-                run.exact(f"{tag}/skew-through-caller", fn, zero, "early return: zero orientation rate (trivially A.W with W = 0)")
+                if zero:
+                    run.exact(f"{tag}/skew-through-caller", fn, True, "early return: zero orientation rate (trivially A.W with W = 0)")
+                else:
+                    run.undecided(f"{tag}/skew-through-caller", fn, "orientation rate is not produced by the spin contract on this path (helper inlined?): decided by the bounded stand-in")
         # canary: the division obligation must be refutable when its guard is dropped
 
 
